@@ -220,6 +220,13 @@ func (e *ControllerEngine) Start(name string, o ...ControllerOption) error {
 		if err := c.Start(ctx); err != nil {
 			e.log.Info("Controller stopped with an error", "name", name, "error", err)
 
+			// If our context was cancelled we were stopped, and Stop has
+			// already forgotten us. A new controller may have been started
+			// under our name since: it isn't ours to clean up.
+			if ctx.Err() != nil {
+				return
+			}
+
 			// Make a best effort attempt to cleanup the controller so that
 			// IsRunning will return false.
 			_ = e.Stop(ctx, name)
